@@ -273,9 +273,14 @@ func (t *taskManager) executor(currentTask *task) {
 			currentTask.output = nil
 			currentTask.err = safe.NewPanicErr(panicInfo, debug.Stack())
 		}
+		verifYield("exec-pre-lock", currentTask)
 		t.mu.Lock()
+		verifTrace(t, "lockE", currentTask)
 		t.l.PushBack(currentTask)
+		verifTrace(t, "push", currentTask)
+		verifYield("exec-pushed", currentTask)
 		t.updateChan()
+		verifTrace(t, "unlockE", currentTask)
 		t.mu.Unlock()
 	}()
 
@@ -306,11 +311,14 @@ func (t *taskManager) submit(tasks []*task) error {
 	}
 	for _, currentTask := range tasks {
 		t.num += 1
+		verifTrace(t, "spawn", currentTask)
 		go t.executor(currentTask)
 	}
 	if syncTask != nil {
 		t.num += 1
+		verifTrace(t, "sync", syncTask)
 		t.executor(syncTask)
+		verifTrace(t, "syncret", syncTask)
 	}
 	return nil
 }
@@ -328,12 +336,18 @@ func (t *taskManager) wait() ([]*task, error) {
 
 func (t *taskManager) waitOne() (*task, bool) {
 	if t.num == 0 {
+		verifTrace(t, "empty", nil)
 		return nil, false
 	}
 	t.num--
+	verifTrace(t, "await", nil)
 	ta := <-t.done
+	verifTrace(t, "recv", ta)
+	verifYield("coll-post-recv", ta)
 	t.mu.Lock()
+	verifTrace(t, "lockC", ta)
 	t.updateChan()
+	verifTrace(t, "unlockC", ta)
 	t.mu.Unlock()
 
 	if ta.err != nil {
@@ -364,8 +378,12 @@ func (t *taskManager) updateChan() {
 	for t.l.Len() > 0 {
 		select {
 		case t.done <- t.l.Front().Value.(*task):
+			verifTrace(t, "send", t.l.Front().Value.(*task))
 			t.l.Remove(t.l.Front())
+			verifYield("chan-sent", nil)
 		default:
+			verifTrace(t, "full", nil)
+			verifYield("chan-full", nil)
 			return
 		}
 	}
